@@ -258,7 +258,8 @@ class WalkNodeInv(LoopInv):
         self.root = root
 
     def at(self, I, st, k, spec):
-        i = st.env["error"].i
+        errs = [v for v in st.env.values() if isinstance(v, AbsErr)]      # the outer loop's current error, whatever it is called
+        i = errs[-1].i
         return {"env": {"container": TreeV(walknode(i, k))},
                 "axiom_instances": [walknode(i, 0) == self.root.t, walknode(i, k + 1) == child(walknode(i, k), err_pelem(i, k))]}
 
